@@ -5,8 +5,8 @@ import json, subprocess
 CLAIMED = {
  # id: (engine, category, technique, text, note, design_ref)
  "C11": ("ovf-codec+ovf-system", "exploration",
-         "model-based property testing (proptest histories vs explicit set model) + exhaustive small-scope enumeration",
-         "Generated packet-ID histories (boundary-biased, up to 2000 steps) are run through the real PacketWindowFilter and an explicit {max,set} model of the statement, comparing every accept/refuse decision; all sequences up to length 3 (quick) / 4 (thorough) over a 36-value boundary alphabet are enumerated exhaustively. Exploration: agreement on everything generated, not a proof for all 2^64 histories.",
+         "model-based property testing (proptest histories vs explicit set model) + exhaustive small-scope enumeration; the same model applied end to end with a reference client against the real server and a reference server against the real client",
+         "Generated packet-ID histories (boundary-biased, up to 2000 steps) are run through the real PacketWindowFilter and an explicit {max,set} model of the statement, comparing every accept/refuse decision; all sequences up to length 3 (quick) / 4 (thorough) over a 36-value boundary alphabet are enumerated exhaustively. System half: a reference Shadowsocks 2022 client sends generated id histories to the real server (the scripted target must receive exactly the model-accepted datagrams, each once, and fresh ids of the same session must still arrive afterwards); a reference server answers the real client with generated reply-id histories (the application must receive exactly the model-accepted replies and later fresh ones). Exploration: agreement on everything generated, not a proof for all 2^64 histories.",
          "Trusted: the explicit model (20 lines) encodes the property statement; proptest RNG.", "DESIGN.md 5/C11"),
 }
 
@@ -59,6 +59,16 @@ CLAIMED["C01"] = ("ovf-system", "exploration",
   "end-to-end property testing of the real client and server binaries over loopback: generated traffic scripts (proptest) against a byte-exact keystream oracle at a scripted application and a scripted target; every README (protocol, cipher, transport) combination in every run",
   "For each case a fresh octo-squirrel-server and octo-squirrel-client (release build of /repo's working tree, hooks off) are started with a generated configuration (protocol, cipher, transport tcp/tls/ws/wss/quic, user table, worker threads). 1..6 (quick) / 1..24 (thorough) concurrent flows each complete a SOCKS5-IPv4 / SOCKS5-domain / HTTP CONNECT / absolute-URI HTTP handshake and run a generated script of application writes, target writes, pauses and syncs (1 byte .. 256 KiB quick, 4 MiB thorough, protocol edge sizes), optionally through a tap that re-cuts the client-server byte stream. Oracle: the flow's own target port is dialled exactly once; every byte received at either end equals the position-dependent keystream the other end wrote (checked on the fly), nothing extra; when the target answers and closes the application reads the whole answer and then end-of-stream; when the application closes the target reads everything and then end-of-stream; both processes alive without a panic. All 50 README combinations are exercised in every run (sub-check matrix), plus generated combinations. Exploration of scripts and of the interleavings the machine produces.",
   "Trusted: the kernel's loopback TCP, the harness's reader threads and keystream. Deadline-decided failures (20 s) are re-run twice on fresh clusters before being reported; wrong bytes, extra dials and dead processes are reported at once.", "DESIGN.md 5/C01")
+
+CLAIMED["C02"] = ("ovf-system+ovf-codec", "exploration",
+  "end-to-end property testing of the real binaries over loopback UDP: generated histories of datagrams from several scripted applications to several scripted echo targets, multiset / ownership / label oracle; plus metamorphic segmentation testing of the datagram-in-stream framings",
+  "For each case a fresh client and server are started for one README UDP row (Shadowsocks x 7 ciphers, with a user table for the 2022 AES ciphers; VMess x 2 ciphers x tcp/tls/ws/wss/quic; Trojan x tls/wss/quic). 1..4 application sockets send a generated history of SOCKS5-UDP datagrams (sizes 0..40000 quick / 65000 thorough with protocol edges; targets addressed by IPv4 or by name) to 1..3 echo targets that answer with a reply naming themselves and repeating the payload. Oracle: every datagram a target receives equals one addressed to it, at most as often as it was sent (never truncated, merged, altered, duplicated or misdelivered); every reply an application receives is a well-formed SOCKS5-UDP datagram labelled with the replying target, answers a datagram that application sent, at most once; a datagram of at most 32 KiB must be answered within three paced attempts. All 22 UDP configurations are exercised in every run. The VMess and Trojan stream framings of datagrams are additionally decoded through FramedRead / WebSocketFramed under generated segmentations (count, boundaries and bytes preserved).",
+  "Trusted: loopback UDP does not lose paced datagrams (loss alone is never a violation; non-delivery is confirmed on three fresh clusters); reference encoder for the framing sub-check.", "DESIGN.md 5/C02")
+
+CLAIMED["C08"] = ("ovf-system", "fault_enumeration",
+  "fault injection against the real binaries over loopback: every fault of a 20-entry catalogue alone on 14 representative configurations (exhaustive), all ordered pairs (thorough) and generated sequences up to length 4 (proptest), each followed by canary flows that must succeed",
+  "Catalogue: stalled / garbage / partial-TLS-hello / half-WebSocket-upgrade / connect-close peers on the server's listener; stalled / garbage / partial-SOCKS5 applications on the client's listener; unresolvable and refused targets; application and target resets mid-flow; junk and replayed datagrams to the server, datagrams to unresolvable targets, malformed local SOCKS5-UDP datagrams, junk to the client's outbound sockets; temporary descriptor exhaustion of server and of client (RLIMIT_NOFILE=80, connections opened until the limit is reached, new UDP sessions arriving meanwhile, then released). Oracle after each sequence, with the hostile connections still open: a fresh byte-exact TCP echo through the same client and server succeeds; where UDP is configured a fresh application's datagram and a datagram of a session that existed before the faults are echoed; both processes alive, no panic, listeners and UDP sockets still bound (/proc). Each fault reports whether it took effect.",
+  "Trusted: /proc for descriptor and socket observation; 10 s canary deadline, confirmed on two more fresh clusters. Black-holed addresses are not in the catalogue (no dropping route in the sandbox).", "DESIGN.md 5/C08")
 
 PENDING = {}
 
